@@ -35,6 +35,7 @@ import (
 	"github.com/aukilabs/hagall-common/messages/dagazpb"
 	"github.com/aukilabs/hagall-common/messages/hagallpb"
 	"github.com/aukilabs/hagall-common/ncsclient"
+	hwebsocket "github.com/aukilabs/hagall-common/websocket"
 	"github.com/aukilabs/hagall/featureflag"
 	"github.com/aukilabs/hagall/models"
 	"github.com/aukilabs/hagall/modules"
@@ -86,6 +87,35 @@ func dur(q url.Values, k string, def time.Duration) time.Duration {
 	return def
 }
 
+// slowFailModule is a harness-owned module (the production list is vikja, odal, dagaz). A custom message whose body
+// starts with "SLOWFAIL" keeps the connection's main loop busy for d and then fails, so that the connection is
+// ended through the normal path at a known moment: the window in which the scheduler queue fills up and the
+// session's frame worker blocks on it is deterministic.
+type slowFailModule struct{ d time.Duration }
+
+func (m *slowFailModule) Name() string                              { return "verif-slowfail" }
+func (m *slowFailModule) Init(*models.Session, *models.Participant) {}
+func (m *slowFailModule) HandleDisconnect()                         {}
+func (m *slowFailModule) HandleMsg(ctx context.Context, _ hwebsocket.ResponseSender, msg hwebsocket.Msg) error {
+	if msg.Type.Number() != hagallpb.MsgType_MSG_TYPE_CUSTOM_MESSAGE.Number() {
+		return hwebsocket.ErrModuleMsgSkip
+	}
+	var cm hagallpb.CustomMessage
+	if err := msg.DataTo(&cm); err != nil || !bytes.HasPrefix(cm.Body, []byte("SLOWFAIL")) {
+		return hwebsocket.ErrModuleMsgSkip
+	}
+	time.Sleep(m.d)
+	return fmt.Errorf("slowfail")
+}
+
+func l2modules(q url.Values) []modules.Module {
+	mods := []modules.Module{&vikja.Module{}, &odal.Module{}, &dagaz.Module{}}
+	if d := dur(q, "slowfail", 0); d > 0 {
+		mods = append(mods, &slowFailModule{d})
+	}
+	return mods
+}
+
 func newL2Server() *l2server {
 	s := &l2server{store: &models.SessionStore{}, recs: map[string]*connRec{}}
 	receiptChan := make(chan ncsclient.ReceiptPayload, 128)
@@ -105,7 +135,7 @@ func newL2Server() *l2server {
 				ClientIdleTimeout:       dur(q, "idle", 5*time.Minute),
 				FrameDuration:           dur(q, "frame", 15*time.Millisecond),
 				Sessions:                s.store,
-				Modules:                 []modules.Module{&vikja.Module{}, &odal.Module{}, &dagaz.Module{}},
+				Modules:                 l2modules(q),
 				FeatureFlags:            featureflag.New(nil),
 				ReceiptChan:             receiptChan,
 				PrivateKey:              theKey,
@@ -793,6 +823,31 @@ func (e *l2env) scriptBurstMix(n int, rep int, params string) Outcome {
 	return out
 }
 
+// fullqueue: a member parks 64 pose updates (pending until the next frame tick), sends a request that keeps its main
+// loop busy for 300 ms and then fails, and fills the scheduler queue (256) with valid requests meanwhile: the frame
+// worker blocks on the full queue while the connection is being ended. Deterministic (the busy window is 20 frames).
+func (e *l2env) scriptFullQueue(rep int) Outcome {
+	out := Outcome{Script: "full_queue_end", Param: 320, Rep: rep, Model: "J V V D*5 F V*600"}
+	o, err := e.begin(true, "slowfail=300ms", 0)
+	if err != nil {
+		out.Note = "setup: " + err.Error()
+		out.Class = "setup-failed"
+		return out
+	}
+	var buf []byte
+	for i := 0; i < 64; i++ {
+		buf = append(buf, frame(2, mustMarshal(&hagallpb.EntityUpdatePose{Type: hagallpb.MsgType_MSG_TYPE_ENTITY_UPDATE_POSE, Timestamp: now(), EntityId: uint32(1000 + i), Pose: pose(float32(i))}))...)
+	}
+	buf = append(buf, frame(2, mustMarshal(&hagallpb.CustomMessage{Type: hagallpb.MsgType_MSG_TYPE_CUSTOM_MESSAGE, Timestamp: now(), Body: []byte("SLOWFAIL")}))...)
+	for i := 0; i < 320; i++ {
+		buf = append(buf, frame(2, mustMarshal(&hagallpb.Request{Type: hagallpb.MsgType_MSG_TYPE_PING_REQUEST, Timestamp: now(), RequestId: nextRid()}))...)
+	}
+	o.c.tcp.Write(buf)
+	e.observe(o, &out)
+	o.c.tcp.Close()
+	return out
+}
+
 // malformed frames
 func (e *l2env) scriptMalformed(kind int, joined bool) Outcome {
 	names := []string{"truncated_protobuf", "text_frame", "no_timestamp", "garbage_1MiB", "raw_garbage_bytes", "undecodable_body", "huge_declared_length", "unknown_opcode"}
@@ -1156,6 +1211,7 @@ func planFor(tier string, burstReps int) []scriptSpec {
 		p = append(p, scriptSpec{fmt.Sprintf("burst:%d:0", n), burstReps}, scriptSpec{fmt.Sprintf("burst:%d:1", n), burstReps / 4})
 	}
 	p = append(p, scriptSpec{"burstmix:600:0", burstReps / 4}, scriptSpec{"burstmix:600:1", burstReps / 4})
+	p = append(p, scriptSpec{"fullqueue:0", 3})
 	return p
 }
 
@@ -1182,6 +1238,8 @@ func (e *l2env) run(name string, rep int) Outcome {
 		o = e.scriptStall(arg(1))
 	case "burst":
 		o = e.scriptBurst(arg(1), arg(2) == 1, rep)
+	case "fullqueue":
+		o = e.scriptFullQueue(rep)
 	case "burstmix":
 		params := ""
 		if arg(2) == 1 {
